@@ -130,6 +130,9 @@ impl Poly1305 {
             let tmp = self.buffer;
             self.block(&tmp);
         }
+        // the accumulator is turned into the tag below: mark the context as finished
+        // also when the message length is a multiple of the block size
+        self.finalized = true;
 
         // fully carry h
         let mut h0 = self.h[0];
